@@ -67,9 +67,7 @@ def work_points(task):
         return acc
     batch = []
     for stratum, p, r, origin in pts:
-        if stratum == 'periodic':
-            continue
-        check_point(acc, a5, stratum, p, r, batch)
+        check_point(acc, a5, stratum, p, r, batch)        # 'periodic': the same points with the longitude written +-360 / +-720 degrees away
     # two-phase (batch) use: the centres asked again in a different, face-interleaved order must still be within one width
     order = sorted(batch, key=lambda t: (t[1], (rm.decode(t[2]) or ())[1:], t[2]))
     for p, r, c in order[::2]:
